@@ -12,6 +12,7 @@ import WireV.Generated.Tables
 import WireV.Rename
 import WireV.Bind
 import WireV.Access
+import WireV.Nameable
 /-! # WireV.Driver — line protocol of the unit tier (one request per line, one reply per line) -/
 namespace WireV
 
@@ -412,6 +413,31 @@ def runAccess (ns : List Nat) : String :=
   | some (s, []) => s
   | _ => "bad-request"
 
+
+/-! `nameable want <type>` with `<type>` = `0 id pkg exported #args <type>…` | `1 #kids <type>…` | `2` -/
+partial def pUTy : P UTy := do
+  let tag ← pNat
+  match tag with
+  | 0 =>
+    let id ← pNat
+    let pkg ← pNat
+    let exported ← pBool
+    let args ← pMany pUTy
+    return .named id pkg exported args
+  | 1 => return .comp (← pMany pUTy)
+  | _ => return .leaf
+
+def runNameable (ns : List Nat) : String :=
+  let p : P String := do
+    let want ← pNat
+    let t ← pUTy
+    return match unnameable want t with
+      | none => "ok"
+      | some id => s!"err {id}"
+  match p.run ns with
+  | some (s, []) => s
+  | _ => "bad-request"
+
 /-- `rename nfs =name… nocc (=name obj|- flags)…`; flags: `r` renamable, `s` silent + renamable, `n` neither -/
 def runRename (ws : List String) : String :=
   match ws with
@@ -515,6 +541,9 @@ def handleLine (line : String) : String :=
   | "path" :: rest => runPath rest
   | "fields" :: rest => runFields rest
   | "rename" :: rest => runRename rest
+  | "nameable" :: rest => match parseNats rest with
+    | some ns => runNameable ns
+    | none => "bad-request"
   | "access" :: rest => match parseNats rest with
     | some ns => runAccess ns
     | none => "bad-request"
